@@ -135,81 +135,95 @@ func SolveWithAbstraction(sc *Script, abs *Script, nGets int, timeoutS int, seed
 	if len(bs) == 0 {
 		return nil, fmt.Errorf("no SMT solver found")
 	}
-	ctx, cancel := context.WithTimeout(context.Background(), time.Duration(timeoutS+5)*time.Second)
-	defer cancel()
-	type one struct {
-		r   *Result
-		err error
-	}
-	nAbs := 0
 	absFile := ""
 	if abs != nil && only == "" {
 		absFile = file + ".abs.smt2"
 		if err := os.WriteFile(absFile, []byte(abs.Text), 0o644); err == nil {
 			defer os.Remove(absFile)
-			for _, b := range Backends() {
-				if strings.HasPrefix(b.Name, "z3") {
-					nAbs++
-				}
-			}
+		} else {
+			absFile = ""
 		}
 	}
-	ch := make(chan one, len(bs)+nAbs)
+	// Stage 1: solver seed 0 for the whole budget: the configuration every claimed obligation was
+	// developed under, so a run is reproducible whatever seed the caller exports. Stage 2 (only
+	// after "unknown"): one more race under the caller's seed, because solver heuristics
+	// (quantifier instantiation order above all) are seed-sensitive. Soundness never depends on
+	// the seed; only "unknown" vs a definite answer does.
 	start := time.Now()
-	if nAbs > 0 {
-		for _, b := range Backends() {
-			if !strings.HasPrefix(b.Name, "z3") {
-				continue
-			}
-			b := b
-			go func() {
-				args := b.Args(absFile, timeoutS, seed)
-				cmd := exec.CommandContext(ctx, args[0], args[1:]...)
-				var out bytes.Buffer
-				cmd.Stdout = &out
-				cmd.Stderr = &out
-				cmd.Run()
-				r := parseOutput(out.String(), 0)
-				if r.Verdict != Unsat {
-					r.Verdict = Unknown // a model of the abstraction proves nothing
-					r.Raw = "abstraction inconclusive"
-				}
-				r.Solver = b.Name + "/qfbv-abstraction"
-				r.Seconds = time.Since(start).Seconds()
-				ch <- one{r, nil}
-			}()
+	r := raceSeeds(file, absFile, bs, nGets, timeoutS, []int{0})
+	if r.Verdict == Unknown && timeoutS >= 20 {
+		r2 := raceSeeds(file, absFile, bs, nGets, timeoutS/2, []int{seed + 1})
+		if r2.Verdict == Unknown {
+			r2.Raw = r.Raw + "\n" + r2.Raw
 		}
+		r = r2
 	}
-	for _, b := range bs {
-		b := b
+	r.Seconds = time.Since(start).Seconds()
+	return r, nil
+}
+
+// raceSeeds races every back end under every seed on the script (and z3 on the QF_BV
+// abstraction, where only "unsat" counts); the first definite answer wins.
+func raceSeeds(file, absFile string, bs []Backend, nGets, timeoutS int, seeds []int) *Result {
+	ctx, cancel := context.WithTimeout(context.Background(), time.Duration(timeoutS+5)*time.Second)
+	defer cancel()
+	start := time.Now()
+	n := 0
+	ch := make(chan *Result, 64)
+	launch := func(b Backend, f string, seed int, abstract bool) {
+		n++
 		go func() {
-			args := b.Args(file, timeoutS, seed)
+			args := b.Args(f, timeoutS, seed)
 			cmd := exec.CommandContext(ctx, args[0], args[1:]...)
 			var out bytes.Buffer
 			cmd.Stdout = &out
 			cmd.Stderr = &out
 			cmd.Run() // z3 4.8 exits 1 on get-value after unsat: only the output matters
-			r := parseOutput(out.String(), nGets)
-			r.Solver = b.Name
+			var r *Result
+			if abstract {
+				r = parseOutput(out.String(), 0)
+				if r.Verdict != Unsat {
+					r.Verdict = Unknown // a model of the abstraction proves nothing
+					r.Raw = "abstraction inconclusive"
+				}
+				r.Solver = b.Name + "/qfbv-abstraction"
+			} else {
+				r = parseOutput(out.String(), nGets)
+				r.Solver = b.Name
+			}
 			r.Seconds = time.Since(start).Seconds()
-			ch <- one{r, nil}
+			ch <- r
 		}()
+	}
+	for _, sd := range seeds {
+		for _, b := range bs {
+			launch(b, file, sd, false)
+		}
+	}
+	if absFile != "" {
+		for _, b := range Backends() {
+			if strings.HasPrefix(b.Name, "z3") {
+				launch(b, absFile, seeds[0], true)
+			}
+		}
 	}
 	var raws []string
 	var last *Result
-	for k := 0; k < len(bs)+nAbs; k++ {
-		o := <-ch
-		last = o.r
-		if o.r.Verdict != Unknown {
+	for k := 0; k < n; k++ {
+		r := <-ch
+		last = r
+		if r.Verdict != Unknown {
 			cancel()
-			return o.r, nil
+			return r
 		}
-		raws = append(raws, o.r.Solver+": "+firstLines(o.r.Raw, 3))
+		if len(raws) < 6 {
+			raws = append(raws, r.Solver+": "+firstLines(r.Raw, 3))
+		}
 	}
 	last.Raw = strings.Join(raws, "\n")
 	last.Solver = "none"
 	last.Seconds = time.Since(start).Seconds()
-	return last, nil
+	return last
 }
 
 // SolveAll runs every back end to completion (thorough tier cross-check).
